@@ -3,6 +3,7 @@
 #define VERIF_C12_LOAD_BIG_H
 
 #include "c11_big.h"
+#include "c11_lambda.h"
 
 namespace c12big
 {
@@ -53,6 +54,28 @@ inline bool dispatch(const std::string &type, splitmix &r, const std::string &by
     return true;
   }
   return false;
+}
+
+// `ld lam <problem id> <hex>`: the stream constructors of the trained models, through
+// serialize::lambda::load.  There is no target; the documented outcomes are a model, nullptr (unknown
+// id / no id) and exception::data_format.  On success the model is saved again (for the comparison with
+// the Lean model's load-then-save).
+inline std::string load_lambda(unsigned prob, const std::string &bytes)
+{
+  static bool reg((register_lambda_kinds(), true));
+  (void)reg;
+  std::istringstream in(bytes);
+  std::unique_ptr<basic_src_lambda_f> y;
+  try
+  {
+    y = serialize::lambda::load<i_mep>(in, prob_of(prob).sset);
+  }
+  catch (const vita::exception::data_format &) { return "exc:data_format same -"; }
+  catch (const std::bad_alloc &) { return "exc:bad_alloc same -"; }
+  catch (const std::length_error &) { return "exc:length_error same -"; }
+  catch (const std::exception &e) { return std::string("exc:std:") + typeid(e).name() + " same -"; }
+  if (!y) return "null same -";
+  return "ok same " + verif::hex(lambda_bytes(*y));
 }
 
 // `ld cache <bits> <hex>`: cache::load is outside C12 (documented "could be changed"); the entry is
